@@ -243,3 +243,12 @@ add('CORR',
     Rule('X-CORR', '$s:p.iter().zip(&$c:p).filter(|(a, b)| a != b).count()', 'count_diffs(&$s, &$c)'),
     Rule('X-CORR', '$t:i.to_vec()', 'tags_to_vec($t)'),
     Rule('X-CORR', 'Tag::new(0, self.tag.clone(), TagValue::U64($d:i.try_into().expect($m:e) $_:c) $_2:c)', 'corr_tag(&self.tag, $d)'))
+
+# X-S2P (unit s2pdu)
+add('S2P',
+    Rule('X-S2P', '$t:i.iter().map(|t| ((t.pos(), t.key()), t)).collect::<HashMap<(TagPos, &str), &Tag>>()', 'index_tags(&$t)'),
+    Rule('X-S2P', 'for ($i:i, $s:i) in $w:i.iter().enumerate() $body:b',
+         '{ let mut $i: usize = 0; while $i < $w.len() { let $s = $w.get_ref($i); $body $i += 1; } }'))
+add('S2PSIG',
+    Rule('X-S2P', '&HashMap<(TagPos, &str), &Tag>', '&TagIndex'),
+    Rule('X-S2P', 'key: &str', 'key: &String'))
